@@ -1,12 +1,14 @@
 """C06 — each language's generators receive types in the normal form they assume.
 
-spec: IR.tla, LangChains.tla (normal-form clauses), LangChainsMC.tla (input universe), LangChainsTrace.tla
+spec: IR.tla, LangChains.tla (normal-form clauses), LangChainsMC.tla (input universe), LangChainsTrace.tla;
+      ChainModel.tla (ideal passes), ChainModelMC.tla (ideal passes in the real order: checks/chainmodel_part.py)
 real code: codegen.Pipeline.ContextForLanguage for the seven languages.
 """
 import json
 
 from vlib import core
 from checks import langchains_common as lc
+from checks import chainmodel_part
 
 
 def run(ctx):
@@ -21,13 +23,17 @@ def run(ctx):
             per_clause[sig] = per_clause.get(sig, 0) + 1
             ctx.fail(sig, "clause %s violated after the %s chain; input shape %s leaf %s at %s" % (c, rec["lang"], rec["shape"], rec["leaf"], rec["pos"]),
                      {"shape": rec["shape"], "leaf": rec["leaf"], "pos": rec["pos"], "lang": rec["lang"]}, key=lc.case_key(rec))
+    # design level: ideal passes (ChainModel.tla) in the order read from the code; MODEL-DRIFT against the real records
+    cm = chainmodel_part.run_part(ctx, out)
+    for sig, what, rp, key in cm["fails"]:
+        ctx.fail(sig, what, rp, key=key)
     st = out["stats"]
     ok_runs = st["records"] - sum(v for k, v in st.items() if k.startswith("errors/"))
     if ok_runs < st["records"] // 3:
         raise core.Inconclusive("most chain runs failed (%d of %d succeeded): the universe is not exercising the chains" % (ok_runs, st["records"]))
     cov = {
-        "states": sum(r["distinct"] for r in out["tlc"]),
-        "transitions": sum(r["generated"] for r in out["tlc"]),
+        "states": sum(r["distinct"] for r in out["tlc"] + cm["tlc"]),
+        "transitions": sum(r["generated"] for r in out["tlc"] + cm["tlc"]),
         "traces_validated_against_impl": out["records"],
         "exhaustive": True,
         "evaluations": st["records"],
@@ -36,11 +42,14 @@ def run(ctx):
                 "cases are distinct TLC states (shape x leaf x position); non-trivial = the chain returned an IR (no error)",
         "universe": out["consts"], "worker_stats": st, "failing_records_per_signature": per_clause,
         "samples": out["samples"],
-        "checker_cmd": "tlc LangChainsMC; worker c06-run; tlc LangChainsTrace",
+        "chain_model": cm["coverage"], "model_drift": cm["coverage"]["model_drift"],
+        "checker_cmd": "tlc LangChainsMC; worker c06-run; tlc LangChainsTrace; worker chain-list; tlc ChainModelMC (+ self-test mutations)",
     }
     return ctx.finish("model_checking", cov, [
         "enum member-name clauses are applied to named enum objects (the ones that become identifiers)",
         "inputs: one package with Root/S/S2/E/U, the construct under test nested <=%d deep" % out["consts"]["MaxDepth"],
+        "design level: a fault of the ideal passes in the real order is a violation only when the real chain run on the same input violates too; "
+        "every other difference between ideal and real result is reported as model_drift",
     ])
 
 
